@@ -440,6 +440,7 @@ def gen_btcdeb_noninteractive(rng):
     if scn.get("spend") and rng.chance(25):
         mutate_spend(rng, scn)
     scn["tty"] = rng.choice([[0, 1], [1, 0], [0, 0]])
+    scn["fdkind"] = rng.choice("ppfc") + rng.choice("ppfcs")
     if scn["tty"][0] == 0:
         scn["script_on_stdin"] = True
         txt = "0x" + (scn.get("script") or "")
@@ -565,6 +566,8 @@ def world_of(scn):
             pass
         return w
     w = proto.new_world(tool, scn.get("argv", []), tty=tuple(scn.get("tty", [1, 1])))
+    if scn.get("fdkind"):
+        w["fdkind"] = scn["fdkind"]
     w["env"] = dict(scn.get("env", {}))
     w["files"] = [{"path": ".btcdeb_history", "exists": True, "content": ""}]
     session.apply_faults(w, scn.get("faults", []))
